@@ -493,4 +493,119 @@ theorem lookupD_of_mem_nodup {α : Type} (l : List (Path × Option α)) (hn : (l
       simp only [this]
       exact ih hn.2 ht
 
+/-! ## the delete loop: small steps vs `fullGC` -/
+
+theorem mem_dedup (l : List Path) (p : Path) : p ∈ dedup l ↔ p ∈ l := by
+  induction l with
+  | nil => simp [dedup]
+  | cons a t ih =>
+    simp only [dedup, List.mem_cons, List.mem_filter, bne_iff_ne, ne_eq, ih]
+    by_cases h : p = a <;> simp [h]
+
+theorem nodup_dedup (l : List Path) : (dedup l).Nodup := by
+  induction l with
+  | nil => simp [dedup]
+  | cons a t ih =>
+    simp only [dedup, List.nodup_cons, List.mem_filter, bne_iff_ne, ne_eq, not_and, Decidable.not_not]
+    exact ⟨fun _ => trivial, ih.filter _⟩
+
+/-- state of the delete loop after the paths in `done` have been processed -/
+structure LoopInv (s0 : St) (T fails done : List Path) (st : St) : Prop where
+  pending : st.pending = some (T.filter (fun p => !done.contains p))
+  managed : st.managed = s0.managed
+  live : st.live = s0.live
+  dir : ∀ p, p ∈ st.dir ↔ p ∈ s0.dir ∧ ¬(p ∈ done ∧ p ∈ T ∧ p ∉ fails)
+  deleted : ∀ p, p ∈ st.deleted ↔ p ∈ done ∧ p ∈ T ∧ p ∉ fails
+
+theorem filter_filter_ne (T done : List Path) (q : Path) :
+    (T.filter (fun p => !done.contains p)).filter (· != q) = T.filter (fun p => !(done ++ [q]).contains p) := by
+  rw [List.filter_filter]
+  apply List.filter_congr
+  intro p _
+  by_cases h1 : p = q <;> by_cases h2 : p ∈ done <;> simp [h1, h2]
+
+theorem LoopInv.step {s0 : St} {T fails done : List Path} {st : St} (h : LoopInv s0 T fails done st)
+    (q : Path) (hq : q ∈ T) (hnd : q ∉ done) :
+    LoopInv s0 T fails (done ++ [q]) (st.step (.gcDelete q (!fails.contains q))) := by
+  have hmem : q ∈ T.filter (fun p => !done.contains p) := by
+    simp [List.mem_filter, hq, hnd]
+  have hc : (T.filter (fun p => !done.contains p)).contains q = true := by simpa using hmem
+  by_cases hf : q ∈ fails
+  · have hfb : (!fails.contains q) = false := by simp [hf]
+    refine ⟨?_, ?_, ?_, ?_, ?_⟩
+    · simp only [St.step, h.pending, hc, if_true, hfb, Bool.false_eq_true, if_false, filter_filter_ne]
+    · simp only [St.step, h.pending, hc, if_true, hfb, Bool.false_eq_true, if_false]; exact h.managed
+    · simp only [St.step, h.pending, hc, if_true, hfb, Bool.false_eq_true, if_false]; exact h.live
+    · intro p
+      simp only [St.step, h.pending, hc, if_true, hfb, Bool.false_eq_true, if_false]
+      rw [h.dir p]
+      simp only [List.mem_append, List.mem_singleton]
+      constructor
+      · rintro ⟨h1, h2⟩
+        refine ⟨h1, ?_⟩
+        rintro ⟨hd | hd, hT, hnf⟩
+        · exact h2 ⟨hd, hT, hnf⟩
+        · subst hd; exact hnf hf
+      · rintro ⟨h1, h2⟩
+        exact ⟨h1, fun ⟨hd, hT, hnf⟩ => h2 ⟨Or.inl hd, hT, hnf⟩⟩
+    · intro p
+      simp only [St.step, h.pending, hc, if_true, hfb, Bool.false_eq_true, if_false]
+      rw [h.deleted p]
+      simp only [List.mem_append, List.mem_singleton]
+      constructor
+      · rintro ⟨hd, hT, hnf⟩; exact ⟨Or.inl hd, hT, hnf⟩
+      · rintro ⟨hd | hd, hT, hnf⟩
+        · exact ⟨hd, hT, hnf⟩
+        · subst hd; exact absurd hf hnf
+  · have hfb : (!fails.contains q) = true := by simp [hf]
+    refine ⟨?_, ?_, ?_, ?_, ?_⟩
+    · simp only [St.step, h.pending, hc, if_true, hfb, filter_filter_ne]
+    · simp only [St.step, h.pending, hc, if_true, hfb]; exact h.managed
+    · simp only [St.step, h.pending, hc, if_true, hfb]; exact h.live
+    · intro p
+      simp only [St.step, h.pending, hc, if_true, hfb, List.mem_filter, bne_iff_ne, ne_eq]
+      rw [h.dir p]
+      simp only [List.mem_append, List.mem_singleton]
+      constructor
+      · rintro ⟨⟨h1, h2⟩, hne⟩
+        refine ⟨h1, ?_⟩
+        rintro ⟨hd | hd, hT, hnf⟩
+        · exact h2 ⟨hd, hT, hnf⟩
+        · exact hne hd
+      · rintro ⟨h1, h2⟩
+        refine ⟨⟨h1, fun ⟨hd, hT, hnf⟩ => h2 ⟨Or.inl hd, hT, hnf⟩⟩, ?_⟩
+        intro hpq
+        subst hpq
+        exact h2 ⟨Or.inr rfl, hq, hf⟩
+    · intro p
+      simp only [St.step, h.pending, hc, if_true, hfb, List.mem_cons]
+      rw [h.deleted p]
+      simp only [List.mem_append, List.mem_singleton]
+      constructor
+      · rintro (hpq | ⟨hd, hT, hnf⟩)
+        · subst hpq; exact ⟨Or.inr rfl, hq, hf⟩
+        · exact ⟨Or.inl hd, hT, hnf⟩
+      · rintro ⟨hd | hd, hT, hnf⟩
+        · exact Or.inr ⟨hd, hT, hnf⟩
+        · exact Or.inl hd
+
+theorem LoopInv.run {s0 : St} {T fails : List Path} (D : List Path) (hD : ∀ q ∈ D, q ∈ T) (hn : D.Nodup)
+    (done : List Path) (hdis : ∀ q ∈ D, q ∉ done) (st : St) (h : LoopInv s0 T fails done st) :
+    LoopInv s0 T fails (done ++ D) (st.run (D.map (fun p => Ev.gcDelete p (!fails.contains p)))) := by
+  induction D generalizing done st with
+  | nil => simpa [St.run] using h
+  | cons q t ih =>
+    simp only [List.nodup_cons] at hn
+    have h1 := h.step q (hD q (by simp)) (hdis q (by simp))
+    have := ih (fun x hx => hD x (by simp [hx])) hn.2 (done ++ [q])
+      (by
+        intro x hx hxd
+        rcases List.mem_append.mp hxd with hxd | hxd
+        · exact hdis x (by simp [hx]) hxd
+        · simp only [List.mem_singleton] at hxd
+          subst hxd
+          exact hn.1 hx)
+      _ h1
+    simpa [St.run, List.append_assoc] using this
+
 end TantivyModel.GC
